@@ -42,8 +42,12 @@ func (l *Loaded) VerifyD(pkgShort string, keys []string, opts vc.VerifyOpts, run
 		e := vc.NewEngine(l.Fset, l.Contracts)
 		e.AddFuncs(p.Types, p.TypesInfo, p.Syntax)
 		if err := e.VerifyFunc(key, opts); err != nil {
-			return nil, fmt.Errorf("%s: %v", key, err)
+			// the contract no longer fits the code: the proof of the pinned tree cannot be rebuilt
+			all = append(all, ObResult{Name: key + "/contract-applies", ID: key + "/contract-applies#0", Kind: "contract-applies", Func: key,
+				Status: "refuted", Backend: "gvc", Output: err.Error(), Layer: "D"})
+			continue
 		}
+		all = append(all, ObResult{Name: key + "/contract-applies", ID: key + "/contract-applies#0", Kind: "contract-applies", Func: key, Status: "unsat", Backend: "gvc", Layer: "D"})
 		qs = append(qs, e.Queries()...)
 		obls = append(obls, e.Obls...)
 	}
